@@ -29,7 +29,7 @@ BACKOFF_MS = 50
 ALPHABET = {"Config", "Call", "Return", "TState", "Append", "Done", "Fail", "BrokerApply", "BrokerReject", "BrokerDup",
             "InitPidReply", "AddPartitionsReply", "AddOffsetsReply", "TxnOffsetCommitReply", "EndTxnReply",
             "TxnPrepare", "WriteMarker", "GroupMarker", "TxnComplete", "Fault", "Resolved", "Killed", "NewInstance",
-            "End", "Hang", "Crash", "CoordinatorMoves", "ClientSend"}
+            "End", "Hang", "Crash", "CoordinatorMoves", "ClientSend", "AbortableError"}
 
 TXN_CODES = {"InitProducerId": [14, 15, 16, 51], "AddPartitionsToTxn": [14, 15, 16, 51, 3],
              "AddOffsetsToTxn": [14, 15, 16, 51], "TxnOffsetCommit": [14, 15, 16, 3], "EndTxn": [14, 15, 16, 51],
@@ -66,6 +66,23 @@ def run_scenario(sc: dict):
             return p
 
         director.plan = plan
+    # errors scripted for the n-th FindCoordinator of the GROUP kind only (the transaction coordinator lookups do not count)
+    grp = [(s_[1], s_[3]) for s_ in director.script if s_[0] == "FindCoordinator:group"]
+    director.script = [s_ for s_ in director.script if s_[0] != "FindCoordinator:group"]
+    if grp:
+        orig_plan2 = director.plan
+        gcount = [0]
+
+        def plan2(cluster, ctx):
+            p = orig_plan2(cluster, ctx)
+            if ctx.api == "FindCoordinator" and getattr(ctx.req, "coordinator_type", 0) == 0:
+                gcount[0] += 1
+                for nth, code in grp:
+                    if nth == gcount[0]:
+                        p.fault, p.code = "error", code
+            return p
+
+        director.plan = plan2
     unauth = set(sc.get("auth", []))
     if unauth:
         orig = tsim.h_AddPartitionsToTxn
@@ -120,6 +137,8 @@ def run_scenario(sc: dict):
     W.wrap(MessageBatch, "done_noack", before=lambda s, a, k: log.emit("Done", i=who(), b=bnum(s)))
     W.wrap(MessageBatch, "failure",
            before=lambda s, a, k: log.emit("Fail", i=who(), b=bnum(s), err=type(a[0] if a else k.get("exception")).__name__))
+    W.wrap(TransactionManager, "error_transaction",
+           before=lambda s, a, k: log.emit("AbortableError", i=who(), err=type(a[0] if a else k.get("exc")).__name__))
     W.wrap(TransactionManager, "_transition_to",
            after=lambda s, a, k, r, e: log.emit("TState", i=who(), to=a[0].name, ok=e is None))
 
@@ -138,7 +157,7 @@ def run_scenario(sc: dict):
         OWNER.set("driver")
         state["loop"] = loop
         log.emit("Config", tid=sc["tid"], parts=[f"{t}-{p}" for t in TOPICS for p in range(sc["nparts"])],
-                 unauth=sorted(unauth), request_ms=REQUEST_MS)
+                 unauth=sorted(unauth), request_ms=REQUEST_MS, strict=bool(sc.get("strict", False)))
         if sc.get("coord_move"):
             t, node = sc["coord_move"]
             loop.call_later(t, lambda: cl.move_coordinator(1, sc["tid"], node), context=cl.ctx)
